@@ -14,12 +14,21 @@
    D19c, D30) the code satisfies the property on every forest at every site.  D30 (repaired): the object table an
    Operator's quantifiers range over held the problem's objects only, so a quantifier never ranged over a domain
    CONSTANT although its type is a subtype of the quantified type; now it is constants + objects
-   (C06_quantifier_range, _objects, _constants, _only; C06_quantifier_range_before_D30_refuted for the pinned code). *)
+   (C06_quantifier_range, _objects, _constants, _only; C06_quantifier_range_before_D30_refuted for the pinned code).
+   Sections that are NOT well-formed (a child with several declared parents, object on a left-hand side) are covered by
+   the C06_any_section_* theorems: the last declaration of a child wins, a declaration of object is dropped
+   (effective ds), and everything above holds with effective (decls gs tr) in place of decls gs tr; every accepted token
+   list made of names and dashes is such a section (C06_accepted_names_are_sections).
+   D31 (open, repair proposed): TrajectoryParser checks a state fluent's argument types through a dict keyed by the object
+   NAME; without a repeated argument that is the positional rule (C06_site_trajectory_fluent_partial), with one it is not
+   (C06_site_trajectory_fluent_refuted: an ill-typed fluent accepted, a well-typed one refused).
+   TrajectoryParser performs NO type check on facts (Model/TypeSites.trajectory_fact): not a place that checks types, so
+   the property's sentence does not speak about it; the check compares it with the model only. *)
 From Coq Require Import List String Bool Relations Permutation PrimFloat.
 From Verif Require Import Base.Result Base.Str Base.Sexp Base.PyDict Model.Types Model.Domain Model.Exec
   Model.TypeSites Spec.Pddl Spec.Types
   Proofs.C06_Walk Proofs.C06_Parse Proofs.C06_Main Proofs.C06_Sites Proofs.C06_Oracle Proofs.C06_Examples
-  Proofs.C06_Constants Proofs.C06_Extra.
+  Proofs.C06_Constants Proofs.C06_Extra Proofs.C06_Trajectory Proofs.C06_AnySection Proofs.C06_Quantifiers.
 Import ListNotations.
 Open Scope string_scope.
 Open Scope list_scope.
@@ -184,6 +193,131 @@ Theorem C06_sites_fluent_accepts_subtypes : forall gs tr (dom : mdomain) objs f 
                   forall t r, In (t, r) (combine tys (dvalues sg)) -> subtype (decls gs tr) t r).
 Proof. exact site_fluent_subtype_lemma. Qed.
 
+(* trajectory fluents with ANY number of arguments, none repeated: the positional rule (finding D31 is outside) *)
+Theorem C06_site_trajectory_fluent_partial : forall (dom : mdomain) objs f args,
+  NoDup args ->
+  (trajectory_fluent dom objs f args = Ok tt <->
+   exists sg tys, dget (d_funcs dom) f = Some sg /\ List.length args = List.length sg /\
+                  mapM (type_of_name dom objs) args = Ok tys /\
+                  forall t r, In (t, r) (combine tys (dvalues sg)) -> is_sub_type (d_types dom) t r = true).
+Proof. exact trajectory_fluent_partial_lemma. Qed.
+
+(* the full statement (every argument list) fails: D31.  With f (?x - a ?y - b), g (?x - a ?y - a ?z - b), oa - a, ob - b:
+   (f oa oa) is accepted although oa is no b, the well-typed (g oa oa ob) is refused.  trajectory_fluent_positional is
+   the function after the proposed repair (proposed_fixes/D31.diff): the positional rule for every argument list. *)
+Theorem C06_site_trajectory_fluent_refuted :
+  exists (dom : mdomain) (objs : pydict string),
+    (exists f args, trajectory_fluent dom objs f args = Ok tt /\
+                    trajectory_fluent_positional dom objs f args = Err EAssert) /\
+    (exists f args, trajectory_fluent dom objs f args = Err EAssert /\
+                    trajectory_fluent_positional dom objs f args = Ok tt).
+Proof. exact trajectory_fluent_refuted_lemma. Qed.
+
+Theorem C06_site_trajectory_fluent_repaired : forall (dom : mdomain) objs f args,
+  trajectory_fluent_positional dom objs f args = Ok tt <->
+  exists sg tys, dget (d_funcs dom) f = Some sg /\ List.length args = List.length sg /\
+                 mapM (type_of_name dom objs) args = Ok tys /\
+                 forall t r, In (t, r) (combine tys (dvalues sg)) -> is_sub_type (d_types dom) t r = true.
+Proof. exact trajectory_fluent_positional_lemma. Qed.
+
+Example C06_site_trajectory_fluent_example :
+  NoDup ["oa"; "ob"] /\ trajectory_fluent t_dom t_objs "f" ["oa"; "ob"] = Ok tt /\
+  trajectory_fluent t_dom t_objs "f" ["ob"; "oa"] = Err EAssert.
+Proof. exact trajectory_fluent_example_lemma. Qed.
+
+(* several quantified effects in ONE action: which effects are applied for an object is decided by the effects' types
+   alone (C06_site_forall_effect filters by ue_ty), so two effects that bind the same variable name to different types
+   keep their own ranges; computed example: (forall (?x - a) .. hit1) and (forall (?x - b) .. hit2), either visiting order *)
+Theorem C06_site_effects_selected_by_type : forall (dom : mdomain) (o : string * string) (us us' : list muniveff),
+  map ue_ty us = map ue_ty us' ->
+  map (fun ue => in_range dom (ue_ty ue) o) us = map (fun ue => in_range dom (ue_ty ue) o) us'.
+Proof. exact effects_selected_by_type_lemma. Qed.
+
+Example C06_site_two_quantifiers_example :
+  forall uorder, uorder = [0; 1] \/ uorder = [1; 0] ->
+  exists ga st, ground_action q_dom q_action [] = Ok ga /\
+    apply_op q_dom 0%float ga (Some (pipeline_objects q_dom q_objs)) false false [0] uorder q_state = Ok st /\
+    q_hits "hit1" st = ["ka"; "oa"; "oc"] /\ q_hits "hit2" st = ["kb"; "ob"].
+Proof. exact two_quantifiers_example_lemma. Qed.
+
+(* ---------------------------------------------------------------------------------------------- any section *)
+(* Sections with several declared parents for one child, or with object on a left-hand side: the parser accepts them.
+   last_wins ds  = the dict of the first pass (every child once, with the parent of its LAST declaration);
+   effective ds  = last_wins ds without a declaration of object.  These are the declarations that count: *)
+Theorem C06_effective_last_wins : forall (ds : list decl) c p,
+  In (c, p) (effective ds) <-> c <> "object" /\ dget (rev ds) c = Some p.
+Proof. exact effective_last_wins_lemma. Qed.
+
+Theorem C06_effective_shape : forall ds, one_parent (effective ds) /\ object_is_root (effective ds).
+Proof. exact (fun ds => conj (effective_one_parent ds) (effective_object_is_root ds)). Qed.
+
+(* nothing is overwritten or dropped in a well-formed section: the theorems below contain C06_closure etc. *)
+Theorem C06_effective_wf : forall ds, one_parent ds -> object_is_root ds -> effective ds = ds.
+Proof. exact effective_wf_lemma. Qed.
+
+(* closure for EVERY section that reads as groups + trailing names *)
+Theorem C06_any_section_closure : forall gs tr,
+  plain_section gs tr -> forall T, parse_types (render gs tr) = Ok T ->
+  forall x y, is_sub_type T x y = true <-> subtype (effective (decls gs tr)) x y.
+Proof. exact any_closure_lemma. Qed.
+
+(* accepted exactly when the effective declarations are acyclic; a cycle among them is a SyntaxError *)
+Theorem C06_any_section_accepted_iff : forall gs tr,
+  plain_section gs tr ->
+  ((exists T, parse_types (render gs tr) = Ok T) <-> acyclic (effective (decls gs tr))).
+Proof. exact any_accepted_iff_lemma. Qed.
+
+Theorem C06_any_section_cyclic_rejected : forall gs tr,
+  plain_section gs tr -> cyclic (effective (decls gs tr)) -> parse_types (render gs tr) = Err ESyntax.
+Proof. exact any_cyclic_rejected_lemma. Qed.
+
+(* the keys of Domain.types: object, the children, and the parents of the declarations that survive the first pass
+   (a parent named only in an overwritten declaration is no type; the p of 'object - p' is one) *)
+Theorem C06_any_section_type_names : forall gs tr,
+  plain_section gs tr -> forall T, parse_types (render gs tr) = Ok T ->
+  forall n, In n (type_names T) <-> is_type_name (last_wins (decls gs tr)) n.
+Proof. exact any_type_names_lemma. Qed.
+
+(* order / grouping: two such sections with the same effective declarations give the same relation *)
+Theorem C06_any_section_order : forall gs tr gs' tr' T,
+  plain_section gs tr -> plain_section gs' tr' ->
+  same_decls (effective (decls gs tr)) (effective (decls gs' tr')) ->
+  parse_types (render gs tr) = Ok T ->
+  exists T', parse_types (render gs' tr') = Ok T' /\ (forall x y, is_sub_type T x y = is_sub_type T' x y).
+Proof. exact any_order_lemma. Qed.
+
+(* and these are ALL the sections: an accepted token list made of names and dashes is render gs tr of a plain section *)
+Theorem C06_accepted_names_are_sections : forall toks T,
+  names_only toks -> parse_types toks = Ok T ->
+  exists gs tr, plain_section gs tr /\ toks = render gs tr.
+Proof. exact accepted_names_are_sections_lemma. Qed.
+
+Example C06_example_two_parents :
+  plain_section ex_two_parents [] /\ ~ one_parent (decls ex_two_parents []) /\
+  effective (decls ex_two_parents []) = [("a", "c"); ("c", "d")] /\
+  parse_types (render ex_two_parents []) = Ok [("a", "c"); ("c", "d"); ("d", "object")] /\
+  subtype (effective (decls ex_two_parents [])) "a" "d" /\ ~ subtype (effective (decls ex_two_parents [])) "a" "b".
+Proof. exact ex_two_parents_lemma. Qed.
+
+Example C06_example_object_child :
+  plain_section ex_object_child [] /\ ~ object_is_root (decls ex_object_child []) /\
+  effective (decls ex_object_child []) = [("a", "foo")] /\
+  parse_types (render ex_object_child []) = Ok [("a", "foo"); ("foo", "object")].
+Proof. exact ex_object_child_lemma. Qed.
+
+(* the local copy of parse_types with the corner '(:types - (x))' (Model/TypeSites.parse_types_code; the check compares
+   token lists that are NOT sections with it): it is the shared model on every rendered section and wherever the shared
+   model accepts; the corner itself *)
+Theorem C06_types_code_on_sections : forall gs tr, parse_types_code (render gs tr) = parse_types (render gs tr).
+Proof. exact parse_types_code_render_lemma. Qed.
+
+Theorem C06_types_code_extends : forall toks T, parse_types toks = Ok T -> parse_types_code toks = Ok T.
+Proof. exact parse_types_code_extends_lemma. Qed.
+
+Example C06_types_code_corner :
+  parse_types_code [Atom "-"; SList [Atom "x"]] = Ok [] /\ parse_types [Atom "-"; SList [Atom "x"]] = Err EType.
+Proof. exact parse_types_code_corner_lemma. Qed.
+
 (* ---------------------------------------------------------------------------------------------- constants (D30) *)
 (* the objects a quantifier ranges over (Operator.quantification_objects, after the repair of D30) are the problem's
    objects AND the domain's constants: exact content of the table ... *)
@@ -288,3 +422,23 @@ Print Assumptions C06_subtypeb_is_closure.
 Print Assumptions C06_oracle_is_closure.
 Print Assumptions C06_oracle_forest.
 Print Assumptions C06_oracle_cyclic.
+Print Assumptions C06_site_trajectory_fluent_partial.
+Print Assumptions C06_site_trajectory_fluent_refuted.
+Print Assumptions C06_site_trajectory_fluent_repaired.
+Print Assumptions C06_site_trajectory_fluent_example.
+Print Assumptions C06_site_effects_selected_by_type.
+Print Assumptions C06_site_two_quantifiers_example.
+Print Assumptions C06_effective_last_wins.
+Print Assumptions C06_effective_shape.
+Print Assumptions C06_effective_wf.
+Print Assumptions C06_any_section_closure.
+Print Assumptions C06_any_section_accepted_iff.
+Print Assumptions C06_any_section_cyclic_rejected.
+Print Assumptions C06_any_section_type_names.
+Print Assumptions C06_any_section_order.
+Print Assumptions C06_accepted_names_are_sections.
+Print Assumptions C06_example_two_parents.
+Print Assumptions C06_example_object_child.
+Print Assumptions C06_types_code_on_sections.
+Print Assumptions C06_types_code_extends.
+Print Assumptions C06_types_code_corner.
